@@ -296,8 +296,28 @@ def run_case(case: dict, sink=None, sequential: bool = False) -> dict:
             "fault": int(case.get("fault", 0)), "ninv": len(ctxlog)}
 
 
+def run_det(case: dict) -> dict:
+    """C11: one run of a case; the canonical (UUID-free) final state, with
+    block boundaries, edges, temp-label names and aux contents."""
+    from .project import canonical
+    tr = run_case(case)
+    final = canonical(tr["post"])
+    final["aux"] = tr["whole"]["aux"]
+    return {"id": case["id"], "base": case.get("base", case["id"]),
+            "variant": case.get("variant", ""),
+            "hashseed": os.environ.get("PYTHONHASHSEED", ""),
+            "final": final, "exc": tr["exc"], "stage": tr["stage"]}
+
+
 def main(argv):
     """runner.py CASES.ndjson TRACES.ndjson"""
+    if os.environ.get("VERIF_G1_MODE") == "det":
+        src, dst = argv[1], argv[2]
+        with open(src) as f, open(dst, "w") as out:
+            for line in f:
+                if line.strip():
+                    out.write(json.dumps(run_det(json.loads(line)), separators=(",", ":")) + "\n")
+        return
     src, dst = argv[1], argv[2]
     n = 0
     with open(src) as f, open(dst, "w") as out:
